@@ -127,7 +127,9 @@ package index
 // timeToUint32 (C12: decoding go-git's output gives back what was encoded):
 // the 32-bit seconds field of an index entry holds the time's real number of
 // seconds -- a time that does not fit (before 1970, from 2106 on) is refused,
-// never cut down to its low 32 bits.
+// never cut down to its low 32 bits. The pair (0, 0) is what the decoder reads
+// as "no time" (the zero time.Time), so it is written for the zero time only
+// (known finding F74: the Unix epoch itself is written as (0, 0) too).
 //gvc:func (*Encoder).timeToUint32
 //gvc:  props C12
 //gvc:  theory int
@@ -137,6 +139,8 @@ package index
 //gvc:  requires nn: t != nil
 //gvc:  ensures whole: err == nil && !spec_time_zero(t.wall, t.ext) ==> sec == spec_time_unix(t.wall, t.ext)
 //gvc:  ensures zero: spec_time_zero(t.wall, t.ext) ==> err == nil && sec == 0 && nsec == 0
+//gvc:  ensures set: err == nil && sec == 0 && nsec == 0 ==> spec_time_zero(t.wall, t.ext)
+//gvc:  kf F74 set: spec_time_unix(t.wall, t.ext) == 0 && spec_time_nsec(t.wall, t.ext) == 0
 //gvc:end
 
 // encode (C12: every index go-git writes is read by git): a header is written
